@@ -183,8 +183,15 @@ def solver_case(rep, rng, dev, kind, screening, ci):
                                  adaptive=False, save_every=50, include_screening=screening,
                                  screening_tolerance=1e-2)
         cur = {"source": 0.5, "drain": -0.5} if len(dev.terminals) >= 2 else None
-        runs.traced_solve(dev, opts, A=A, currents=cur, on_step=on_step)
-    case = {"run": ci, "drive": kind, "screening": screening, "steps": len(cur_ids) or None}
+        # every other unscreened run solves the same solver object a second time (shorter): the operators must follow the
+        # potential from the first step of the second run too
+        again = 1 if (not screening and ci % 2 == 1) else 0
+
+        def between(solver, k):
+            solver.options.solve_time = 0.45
+
+        runs.traced_solve(dev, opts, A=A, currents=cur, on_step=on_step, resolve=again, between=between)
+    case = {"run": ci, "drive": kind, "screening": screening, "steps": len(cur_ids) or None, "solved_again": again}
     if mism:
         rep.violation("operators partially updated: matrices differ from a rebuild for their own link exponents",
                       {**case, "first": mism[:3]})
